@@ -505,6 +505,11 @@ class Taylor3D(object):
             keyt = (key,)
         else:
             keyt = key
+        # terms of the lhs that the rhs does not contain are zero in the rhs:
+        rhsnl = {(nv, lv) for nv, lv, cv in value.coefflist}
+        for n, l, c in self.coefflist:
+            if (n, l) not in rhsnl:
+                c[(slice(0, None, None),) + keyt] = 0
         for nv, lv, cv in value.coefflist:
             matched = False
             for n, l, c in self.coefflist:
